@@ -215,6 +215,8 @@ impl VersionManager {
     pub async fn commit_changes(&self, ops: Vec<EpochOp>) -> StorageResult<u64> {
         // Hold the manifest lock so that no one else could commit changes.
         let mut manifest = self.manifest.lock().await;
+        #[cfg(risinglight_verif)]
+        crate::verif::gate("vm.commit.locked").await;
 
         self.commit_changes_with_custom_manifest(ops, &mut manifest)
             .await
@@ -292,8 +294,12 @@ impl VersionManager {
             }
         }
 
+        #[cfg(risinglight_verif)]
+        crate::verif::gate("vm.commit.before_append").await;
         // Persist the change onto the disk.
         manifest.append(&entries).await?;
+        #[cfg(risinglight_verif)]
+        crate::verif::gate("vm.commit.after_append").await;
 
         // Add epoch number and make the modified snapshot available.
         let mut inner = self.inner.lock();
@@ -366,6 +372,8 @@ impl VersionManager {
     }
 
     pub async fn do_vacuum(self: &Arc<Self>) -> StorageResult<()> {
+        #[cfg(risinglight_verif)]
+        crate::verif::gate("vacuum.begin").await;
         let deletions = self.find_vacuum().await?;
 
         for (table_id, rowset_id) in deletions {
@@ -374,6 +382,8 @@ impl VersionManager {
                 .path
                 .join(format!("{}_{}", table_id, rowset_id));
             info!("vacuum {}_{}", table_id, rowset_id);
+            #[cfg(risinglight_verif)]
+            crate::verif::gate("vacuum.before_remove").await;
             if !self.storage_options.disable_all_disk_operation {
                 tokio::fs::remove_dir_all(path).await?;
             }
